@@ -807,6 +807,7 @@ where
                 // from them at read time and needs no separate synchronization.
                 self.total_tokens
                     .fetch_add(tokens as u64, Ordering::Relaxed);
+                anda_db_utils::verif_point!("bm25.insert.doc_published");
 
                 // Update inverted index
                 for (token, freq) in token_freqs {
@@ -837,12 +838,14 @@ where
                             b.insert(token, size_increase);
                         }
                     };
+                    anda_db_utils::verif_point!("bm25.insert.token_done");
                 }
             }
         }
 
         // Phase 2: Update bucket states
         // tokens_to_migrate: (old_bucket_id, token, size)
+        anda_db_utils::verif_point!("bm25.insert.postings_done");
         let mut tokens_to_migrate: Vec<(u32, String, usize)> = Vec::new();
         for (bid, val) in buckets_to_update {
             let mut bucket = self.buckets.entry(bid).or_default();
@@ -871,6 +874,7 @@ where
 
         // Phase 3: Create new buckets if needed
         if !tokens_to_migrate.is_empty() {
+            anda_db_utils::verif_point!("bm25.insert.before_migration");
             let mut next_bucket_id = self.max_bucket_id.fetch_add(1, Ordering::Release) + 1;
 
             for (old_bucket_id, token, size) in tokens_to_migrate {
@@ -966,6 +970,7 @@ where
             self.total_tokens
                 .fetch_sub(removed_tokens as u64, Ordering::Relaxed);
         }
+        anda_db_utils::verif_point!("bm25.remove.doc_unpublished");
 
         // Tokenize the document
         let token_freqs = {
@@ -1007,6 +1012,7 @@ where
         // Drop empty postings atomically: a concurrent insert may have appended
         // a new entry after the guard above was released, in which case the
         // posting must survive. `remove_if` re-checks under the shard lock.
+        anda_db_utils::verif_point!("bm25.remove.postings_done");
         let mut removed_postings: FxHashSet<String> =
             FxHashSet::with_capacity_and_hasher(maybe_empty_tokens.len(), FxBuildHasher);
         for token in maybe_empty_tokens {
@@ -1018,6 +1024,7 @@ where
                 removed_postings.insert(token);
             }
         }
+        anda_db_utils::verif_point!("bm25.remove.before_bucket_update");
 
         for (bucket_id, val) in buckets_to_update {
             if let Some(mut b) = self.buckets.get_mut(&bucket_id) {
